@@ -174,18 +174,19 @@ class Adapter(object):
   def normalize(self, obs, exp):
     """Rest: the spec's expectation [start, len, lo] stands for every remainder
     frame[s : start+len] with lo <= s <= start (s < start only below a leaf layer that keeps a
-    tail of its body raw); an observation of that form is mapped to the canonical one."""
+    tail of its body raw).  The observed remainder is located in the offered bytes and folded
+    into that canonical form: start = the spec's start, len = what it holds beyond start."""
     if isinstance(obs, dict) and "starts" in obs and isinstance(exp, dict) and "start" in exp:
       n, st = obs["len"], obs["starts"]
-      end = exp["start"] + exp["len"]
-      s = end - n
-      if n >= 0 and exp["lo"] <= s <= exp["start"] and (st == "any" or s in st):
-        return dict(exp)
-      if st == "any" or exp["start"] in st:
-        at = exp["start"]
-      else:
-        at = st[0] if st else -1
-      return {"start": at, "len": n, "lo": exp["lo"]}
+      lo, at = exp["lo"], exp["start"]
+      if n < 0:
+        return {"start": -1, "len": n, "lo": lo}
+      cands = [at] if st == "any" else [s for s in st if lo <= s <= at and s + n >= at]
+      if cands:
+        fit = [s for s in cands if n - (at - s) == exp["len"]]
+        s = fit[0] if fit else max(cands)
+        return {"start": at, "len": n - (at - s), "lo": lo}
+      return {"start": st[0] if st else -1, "len": n, "lo": lo}
     return obs
 
   def signature(self, st, obs):
